@@ -1309,6 +1309,18 @@ def _fold_consts(st):
                 and isinstance(node.test.value, bool):
             keep = node.body if node.test.value else node.orelse
             return list(keep) if keep else None
+        if isinstance(node, ast.Expr) and isinstance(node.value, ast.Call) \
+                and isinstance(node.value.func, ast.Name) and \
+                node.value.func.id == 'setattr' and \
+                len(node.value.args) == 3 and not node.value.keywords and \
+                isinstance(node.value.args[1], ast.Constant) and \
+                isinstance(node.value.args[1].value, str) and \
+                node.value.args[1].value.isidentifier():
+            # setattr(x, 'name', v) -> x.name = v
+            a = ast.Assign(targets=[ast.Attribute(
+                value=node.value.args[0], attr=node.value.args[1].value,
+                ctx=ast.Store())], value=node.value.args[2])
+            return ast.fix_missing_locations(ast.copy_location(a, node))
         return node
     return prune(st)
 
